@@ -912,43 +912,43 @@ VVVI_kInsertV256_F64(a, b, d, imm) == Tab([k \in 1..Len(a) |-> IF (k - 1) \div 3
 (* UniOpVVVV                                                                                                        *)
 (* ---------------------------------------------------------------------------------------------------------------- *)
 \* (no doc comment in uniop.h; semantics of the reference implementation of the repository test)
-VVVV_kBlendV_U8(a, b, c, d) == Tab([k \in 1..Len(a) |-> IF c[k] = 255 THEN b[k] ELSE IF c[k] = 0 THEN a[k] ELSE DC])
+VVVV_kBlendV_U8(a, b, c, d, fu) == Tab([k \in 1..Len(a) |-> IF c[k] = 255 THEN b[k] ELSE IF c[k] = 0 THEN a[k] ELSE DC])
 \* `Vector u16 multiply-add.`
-VVVV_kMAddU16(a, b, c, d) == Map3(2, a, b, c, LAMBDA x, y, z : BAdd(BMul(x, y), z))
+VVVV_kMAddU16(a, b, c, d, fu) == Map3(2, a, b, c, LAMBDA x, y, z : BAdd(BMul(x, y), z))
 \* `Vector u32 multiply-add.`
-VVVV_kMAddU32(a, b, c, d) == Map3(4, a, b, c, LAMBDA x, y, z : BAdd(BMul(x, y), z))
+VVVV_kMAddU32(a, b, c, d, fu) == Map3(4, a, b, c, LAMBDA x, y, z : BAdd(BMul(x, y), z))
 \* `Scalar f32 multiply-add (FMA if available, or separate MUL+ADD if not).`
-VVVV_kMAddF32S(a, b, c, d) == Scalar(4, Len(a), LET p == Lane(a, 4, 0) q == Lane(b, 4, 0) r == Lane(c, 4, 0) IN FArith3(p, q, r, FmtOf(4), LAMBDA x, y, z : FOfIntZ(x * y + z, FmtOf(4))))
+VVVV_kMAddF32S(a, b, c, d, fu) == Scalar(4, Len(a), LET p == Lane(a, 4, 0) q == Lane(b, 4, 0) r == Lane(c, 4, 0) IN FMulAddI(p, q, r, FmtOf(4), FALSE, FALSE, fu))
 \* `Scalar f64 multiply-add (FMA if available, or separate MUL+ADD if not).`
-VVVV_kMAddF64S(a, b, c, d) == Scalar(8, Len(a), LET p == Lane(a, 8, 0) q == Lane(b, 8, 0) r == Lane(c, 8, 0) IN FArith3(p, q, r, FmtOf(8), LAMBDA x, y, z : FOfIntZ(x * y + z, FmtOf(8))))
+VVVV_kMAddF64S(a, b, c, d, fu) == Scalar(8, Len(a), LET p == Lane(a, 8, 0) q == Lane(b, 8, 0) r == Lane(c, 8, 0) IN FMulAddI(p, q, r, FmtOf(8), FALSE, FALSE, fu))
 \* `Vector f32 multiply-add (FMA if available, or separate MUL+ADD if not).`
-VVVV_kMAddF32(a, b, c, d) == Map3(4, a, b, c, LAMBDA p, q, r : FArith3(p, q, r, FmtOf(4), LAMBDA x, y, z : FOfIntZ(x * y + z, FmtOf(4))))
+VVVV_kMAddF32(a, b, c, d, fu) == Map3(4, a, b, c, LAMBDA p, q, r : FMulAddI(p, q, r, FmtOf(4), FALSE, FALSE, fu))
 \* `Vector f64 multiply-add (FMA if available, or separate MUL+ADD if not).`
-VVVV_kMAddF64(a, b, c, d) == Map3(8, a, b, c, LAMBDA p, q, r : FArith3(p, q, r, FmtOf(8), LAMBDA x, y, z : FOfIntZ(x * y + z, FmtOf(8))))
+VVVV_kMAddF64(a, b, c, d, fu) == Map3(8, a, b, c, LAMBDA p, q, r : FMulAddI(p, q, r, FmtOf(8), FALSE, FALSE, fu))
 \* `Scalar f32 multiply-sub (FMA if available, or separate MUL+ADD if not).`
-VVVV_kMSubF32S(a, b, c, d) == Scalar(4, Len(a), LET p == Lane(a, 4, 0) q == Lane(b, 4, 0) r == Lane(c, 4, 0) IN FArith3(p, q, r, FmtOf(4), LAMBDA x, y, z : FOfIntZ(x * y - z, FmtOf(4))))
+VVVV_kMSubF32S(a, b, c, d, fu) == Scalar(4, Len(a), LET p == Lane(a, 4, 0) q == Lane(b, 4, 0) r == Lane(c, 4, 0) IN FMulAddI(p, q, r, FmtOf(4), FALSE, TRUE, fu))
 \* `Scalar f64 multiply-sub (FMA if available, or separate MUL+ADD if not).`
-VVVV_kMSubF64S(a, b, c, d) == Scalar(8, Len(a), LET p == Lane(a, 8, 0) q == Lane(b, 8, 0) r == Lane(c, 8, 0) IN FArith3(p, q, r, FmtOf(8), LAMBDA x, y, z : FOfIntZ(x * y - z, FmtOf(8))))
+VVVV_kMSubF64S(a, b, c, d, fu) == Scalar(8, Len(a), LET p == Lane(a, 8, 0) q == Lane(b, 8, 0) r == Lane(c, 8, 0) IN FMulAddI(p, q, r, FmtOf(8), FALSE, TRUE, fu))
 \* `Vector f32 multiply-sub (FMA if available, or separate MUL+ADD if not).`
-VVVV_kMSubF32(a, b, c, d) == Map3(4, a, b, c, LAMBDA p, q, r : FArith3(p, q, r, FmtOf(4), LAMBDA x, y, z : FOfIntZ(x * y - z, FmtOf(4))))
+VVVV_kMSubF32(a, b, c, d, fu) == Map3(4, a, b, c, LAMBDA p, q, r : FMulAddI(p, q, r, FmtOf(4), FALSE, TRUE, fu))
 \* `Vector f64 multiply-sub (FMA if available, or separate MUL+ADD if not).`
-VVVV_kMSubF64(a, b, c, d) == Map3(8, a, b, c, LAMBDA p, q, r : FArith3(p, q, r, FmtOf(8), LAMBDA x, y, z : FOfIntZ(x * y - z, FmtOf(8))))
+VVVV_kMSubF64(a, b, c, d, fu) == Map3(8, a, b, c, LAMBDA p, q, r : FMulAddI(p, q, r, FmtOf(8), FALSE, TRUE, fu))
 \* `Scalar f32 negated-multiply-add (FMA if available, or separate MUL+ADD if not)`
-VVVV_kNMAddF32S(a, b, c, d) == Scalar(4, Len(a), LET p == Lane(a, 4, 0) q == Lane(b, 4, 0) r == Lane(c, 4, 0) IN FArith3(p, q, r, FmtOf(4), LAMBDA x, y, z : FOfIntZ(z - x * y, FmtOf(4))))
+VVVV_kNMAddF32S(a, b, c, d, fu) == Scalar(4, Len(a), LET p == Lane(a, 4, 0) q == Lane(b, 4, 0) r == Lane(c, 4, 0) IN FMulAddI(p, q, r, FmtOf(4), TRUE, FALSE, fu))
 \* `Scalar f64 negated-multiply-add (FMA if available, or separate MUL+ADD if not)`
-VVVV_kNMAddF64S(a, b, c, d) == Scalar(8, Len(a), LET p == Lane(a, 8, 0) q == Lane(b, 8, 0) r == Lane(c, 8, 0) IN FArith3(p, q, r, FmtOf(8), LAMBDA x, y, z : FOfIntZ(z - x * y, FmtOf(8))))
+VVVV_kNMAddF64S(a, b, c, d, fu) == Scalar(8, Len(a), LET p == Lane(a, 8, 0) q == Lane(b, 8, 0) r == Lane(c, 8, 0) IN FMulAddI(p, q, r, FmtOf(8), TRUE, FALSE, fu))
 \* `Vector f32 negated-multiply-add (FMA if available, or separate MUL+ADD if not).`
-VVVV_kNMAddF32(a, b, c, d) == Map3(4, a, b, c, LAMBDA p, q, r : FArith3(p, q, r, FmtOf(4), LAMBDA x, y, z : FOfIntZ(z - x * y, FmtOf(4))))
+VVVV_kNMAddF32(a, b, c, d, fu) == Map3(4, a, b, c, LAMBDA p, q, r : FMulAddI(p, q, r, FmtOf(4), TRUE, FALSE, fu))
 \* `Vector f64 negated-multiply-add (FMA if available, or separate MUL+ADD if not).`
-VVVV_kNMAddF64(a, b, c, d) == Map3(8, a, b, c, LAMBDA p, q, r : FArith3(p, q, r, FmtOf(8), LAMBDA x, y, z : FOfIntZ(z - x * y, FmtOf(8))))
+VVVV_kNMAddF64(a, b, c, d, fu) == Map3(8, a, b, c, LAMBDA p, q, r : FMulAddI(p, q, r, FmtOf(8), TRUE, FALSE, fu))
 \* `Scalar f32 negated-multiply-sub (FMA if available, or separate MUL+ADD if not).`
-VVVV_kNMSubF32S(a, b, c, d) == Scalar(4, Len(a), LET p == Lane(a, 4, 0) q == Lane(b, 4, 0) r == Lane(c, 4, 0) IN FArith3(p, q, r, FmtOf(4), LAMBDA x, y, z : FOfIntZ(0 - x * y - z, FmtOf(4))))
+VVVV_kNMSubF32S(a, b, c, d, fu) == Scalar(4, Len(a), LET p == Lane(a, 4, 0) q == Lane(b, 4, 0) r == Lane(c, 4, 0) IN FMulAddI(p, q, r, FmtOf(4), TRUE, TRUE, fu))
 \* `Scalar f64 negated-multiply-sub (FMA if available, or separate MUL+ADD if not).`
-VVVV_kNMSubF64S(a, b, c, d) == Scalar(8, Len(a), LET p == Lane(a, 8, 0) q == Lane(b, 8, 0) r == Lane(c, 8, 0) IN FArith3(p, q, r, FmtOf(8), LAMBDA x, y, z : FOfIntZ(0 - x * y - z, FmtOf(8))))
+VVVV_kNMSubF64S(a, b, c, d, fu) == Scalar(8, Len(a), LET p == Lane(a, 8, 0) q == Lane(b, 8, 0) r == Lane(c, 8, 0) IN FMulAddI(p, q, r, FmtOf(8), TRUE, TRUE, fu))
 \* `Vector f32 negated-multiply-sub (FMA if available, or separate MUL+ADD if not).`
-VVVV_kNMSubF32(a, b, c, d) == Map3(4, a, b, c, LAMBDA p, q, r : FArith3(p, q, r, FmtOf(4), LAMBDA x, y, z : FOfIntZ(0 - x * y - z, FmtOf(4))))
+VVVV_kNMSubF32(a, b, c, d, fu) == Map3(4, a, b, c, LAMBDA p, q, r : FMulAddI(p, q, r, FmtOf(4), TRUE, TRUE, fu))
 \* `Vector f64 negated-multiply-sub (FMA if available, or separate MUL+ADD if not).`
-VVVV_kNMSubF64(a, b, c, d) == Map3(8, a, b, c, LAMBDA p, q, r : FArith3(p, q, r, FmtOf(8), LAMBDA x, y, z : FOfIntZ(0 - x * y - z, FmtOf(8))))
+VVVV_kNMSubF64(a, b, c, d, fu) == Map3(8, a, b, c, LAMBDA p, q, r : FMulAddI(p, q, r, FmtOf(8), TRUE, TRUE, fu))
 
 EvalVM(op, m, d, idx, W) ==
   CASE op = "kLoad8" -> VM_kLoad8(m, d, idx, W)
@@ -1379,26 +1379,26 @@ EvalVVVI(op, a, b, d, imm) ==
     [] op = "kInsertV256_U64" -> VVVI_kInsertV256_U64(a, b, d, imm)
     [] op = "kInsertV256_F64" -> VVVI_kInsertV256_F64(a, b, d, imm)
 
-EvalVVVV(op, a, b, c, d) ==
-  CASE op = "kBlendV_U8" -> VVVV_kBlendV_U8(a, b, c, d)
-    [] op = "kMAddU16" -> VVVV_kMAddU16(a, b, c, d)
-    [] op = "kMAddU32" -> VVVV_kMAddU32(a, b, c, d)
-    [] op = "kMAddF32S" -> VVVV_kMAddF32S(a, b, c, d)
-    [] op = "kMAddF64S" -> VVVV_kMAddF64S(a, b, c, d)
-    [] op = "kMAddF32" -> VVVV_kMAddF32(a, b, c, d)
-    [] op = "kMAddF64" -> VVVV_kMAddF64(a, b, c, d)
-    [] op = "kMSubF32S" -> VVVV_kMSubF32S(a, b, c, d)
-    [] op = "kMSubF64S" -> VVVV_kMSubF64S(a, b, c, d)
-    [] op = "kMSubF32" -> VVVV_kMSubF32(a, b, c, d)
-    [] op = "kMSubF64" -> VVVV_kMSubF64(a, b, c, d)
-    [] op = "kNMAddF32S" -> VVVV_kNMAddF32S(a, b, c, d)
-    [] op = "kNMAddF64S" -> VVVV_kNMAddF64S(a, b, c, d)
-    [] op = "kNMAddF32" -> VVVV_kNMAddF32(a, b, c, d)
-    [] op = "kNMAddF64" -> VVVV_kNMAddF64(a, b, c, d)
-    [] op = "kNMSubF32S" -> VVVV_kNMSubF32S(a, b, c, d)
-    [] op = "kNMSubF64S" -> VVVV_kNMSubF64S(a, b, c, d)
-    [] op = "kNMSubF32" -> VVVV_kNMSubF32(a, b, c, d)
-    [] op = "kNMSubF64" -> VVVV_kNMSubF64(a, b, c, d)
+EvalVVVV(op, a, b, c, d, fu) ==
+  CASE op = "kBlendV_U8" -> VVVV_kBlendV_U8(a, b, c, d, fu)
+    [] op = "kMAddU16" -> VVVV_kMAddU16(a, b, c, d, fu)
+    [] op = "kMAddU32" -> VVVV_kMAddU32(a, b, c, d, fu)
+    [] op = "kMAddF32S" -> VVVV_kMAddF32S(a, b, c, d, fu)
+    [] op = "kMAddF64S" -> VVVV_kMAddF64S(a, b, c, d, fu)
+    [] op = "kMAddF32" -> VVVV_kMAddF32(a, b, c, d, fu)
+    [] op = "kMAddF64" -> VVVV_kMAddF64(a, b, c, d, fu)
+    [] op = "kMSubF32S" -> VVVV_kMSubF32S(a, b, c, d, fu)
+    [] op = "kMSubF64S" -> VVVV_kMSubF64S(a, b, c, d, fu)
+    [] op = "kMSubF32" -> VVVV_kMSubF32(a, b, c, d, fu)
+    [] op = "kMSubF64" -> VVVV_kMSubF64(a, b, c, d, fu)
+    [] op = "kNMAddF32S" -> VVVV_kNMAddF32S(a, b, c, d, fu)
+    [] op = "kNMAddF64S" -> VVVV_kNMAddF64S(a, b, c, d, fu)
+    [] op = "kNMAddF32" -> VVVV_kNMAddF32(a, b, c, d, fu)
+    [] op = "kNMAddF64" -> VVVV_kNMAddF64(a, b, c, d, fu)
+    [] op = "kNMSubF32S" -> VVVV_kNMSubF32S(a, b, c, d, fu)
+    [] op = "kNMSubF64S" -> VVVV_kNMSubF64S(a, b, c, d, fu)
+    [] op = "kNMSubF32" -> VVVV_kNMSubF32(a, b, c, d, fu)
+    [] op = "kNMSubF64" -> VVVV_kNMSubF64(a, b, c, d, fu)
 
 (* ---------------------------------------------------------------------------------------------------------------- *)
 (* UniOpRR - "Arithmetic operations having 2 operands (dst, src)."  a = source word (4 or 8 bytes)                   *)
@@ -1760,7 +1760,7 @@ ExpectVec(o) ==
     [] o.k = "vvi"  -> EvalVVI(o.op, o.a, o.d0, o.imm)
     [] o.k = "vvv"  -> EvalVVV(o.op, o.a, o.b, o.d0)
     [] o.k = "vvvi" -> EvalVVVI(o.op, o.a, o.b, o.d0, o.imm)
-    [] o.k = "vvvv" -> EvalVVVV(o.op, o.a, o.b, o.c, o.d0)
+    [] o.k = "vvvv" -> EvalVVVV(o.op, o.a, o.b, o.c, o.d0, o.fused)
 
 (* memory image after a store: bytes [g+1 .. g+Len(v)] replaced by v, everything else unchanged *)
 MemAfter(before, g, v) == Tab([k \in 1..Len(before) |-> IF k > g /\ k <= g + Len(v) THEN v[k - g] ELSE before[k]])
